@@ -8,7 +8,7 @@ from pdfminer.pdfdocument import (
     PDFNoPageLabels,
     PDFTextExtractionNotAllowed,
 )
-from pdfminer.pdfexceptions import PDFObjectNotFound, PDFValueError
+from pdfminer.pdfexceptions import PDFObjectNotFound, PDFTypeError, PDFValueError
 from pdfminer.pdfparser import PDFParser
 from pdfminer.pdftypes import dict_value, int_value, list_value, resolve1
 from pdfminer.psparser import LIT
@@ -190,9 +190,9 @@ class PDFPage:
             return us_letter
 
         try:
-            return parse_rect(resolve1(val) for val in resolve1(value))
+            return parse_rect([resolve1(val) for val in list_value(value)])
 
-        except PDFValueError:
+        except (PDFValueError, PDFTypeError):
             log.warning("Invalid MediaBox in /Page, defaulting to US Letter")
             return us_letter
 
@@ -202,9 +202,9 @@ class PDFPage:
             return mediabox
 
         try:
-            return parse_rect(resolve1(val) for val in resolve1(value))
+            return parse_rect([resolve1(val) for val in list_value(value)])
 
-        except PDFValueError:
+        except (PDFValueError, PDFTypeError):
             log.warning("Invalid CropBox in /Page, defaulting to MediaBox")
             return mediabox
 
